@@ -219,3 +219,89 @@ func DeadlockInDump(dump []byte) (string, bool) {
 	}
 	return witness, witness != ""
 }
+
+// SpinnersInDump lists the goroutines of a dump (first goroutine = the caller, ignored) that are running or runnable
+// with library code on their stack, as "goroutine-id function". Used by the case watchdog: a goroutine that is still
+// busy inside the library in two dumps taken half a second apart, long after the case should have finished and with no
+// new event recorded in between, is looping without making progress.
+func SpinnersInDump(dump []byte) map[string]string {
+	out := map[string]string{}
+	blocks := bytes.Split(dump, []byte("\n\n"))
+	for i, b := range blocks {
+		if i == 0 {
+			continue
+		}
+		nl := bytes.IndexByte(b, '\n')
+		if nl < 0 || !bytes.HasPrefix(b, []byte("goroutine ")) {
+			continue
+		}
+		head := b[:nl]
+		l := bytes.IndexByte(head, '[')
+		r := bytes.LastIndexByte(head, ']')
+		if l < 0 || r < l {
+			continue
+		}
+		st := head[l+1 : r]
+		if j := bytes.IndexByte(st, ','); j >= 0 {
+			st = st[:j]
+		}
+		if string(st) != "running" && string(st) != "runnable" {
+			continue
+		}
+		id := string(head[len("goroutine "):l])
+		for _, ln := range bytes.Split(b[nl+1:], []byte("\n")) {
+			if len(ln) == 0 || ln[0] == '\t' {
+				continue
+			}
+			// the innermost frame outside the runtime must be library code: a goroutine that runs harness code called
+			// by the library (a job, a callback) is not the library's loop
+			if bytes.HasPrefix(ln, []byte("runtime.")) || bytes.HasPrefix(ln, []byte("sync.")) || bytes.HasPrefix(ln, []byte("sync/atomic.")) || bytes.HasPrefix(ln, []byte("internal/")) || bytes.HasPrefix(ln, []byte("time.")) || bytes.HasPrefix(ln, []byte("context.")) {
+				continue
+			}
+			if !bytes.HasPrefix(ln, []byte("github.com/aperturerobotics/util/")) || bytes.Contains(ln, []byte("/verifhook.")) {
+				break
+			}
+			{
+				fn := string(ln)
+				if k := bytes.IndexByte(ln, '('); k > 0 {
+					// keep "pkg.(*T).Method" / "pkg.Func", drop the argument words
+					if ln[k-1] == '.' {
+						if k2 := bytes.IndexByte(ln[k+1:], '('); k2 >= 0 {
+							fn = string(ln[:k+1+k2])
+						}
+					} else {
+						fn = string(ln[:k])
+					}
+				}
+				out[id] = fn
+				break
+			}
+		}
+	}
+	return out
+}
+
+// BusyLoopInLibrary takes two goroutine dumps gap apart and reports a goroutine that is running or runnable with the
+// same library function innermost in both. Meant for the moment a case has failed to become quiescent for many seconds.
+func BusyLoopInLibrary(gap time.Duration) (string, bool) {
+	take := func() []byte {
+		buf := make([]byte, 1<<20)
+		return buf[:runtime.Stack(buf, true)]
+	}
+	s1 := SpinnersInDump(take())
+	if len(s1) == 0 {
+		return "", false
+	}
+	time.Sleep(gap)
+	s2 := SpinnersInDump(take())
+	for id, fn := range s1 {
+		if fn2, ok := s2[id]; ok {
+			// the loop may span several library functions: the same goroutine being busy in library code both times is the point
+			if fn2 != fn {
+				fn += " / " + fn2
+			}
+			return fn, true
+		}
+	}
+	return "", false
+}
